@@ -1056,3 +1056,54 @@ def slotagree(repo):
     res.detail = {"tabled": sorted(f"{a}|{b}" for a, b in SLOT_EXCEPTIONS)}
     res.analysed = [HG]
     return res
+
+
+# ---------------------------------------------------------------------------------------------------------
+# R-HEADERGUARD: the include guard keeps the whole module path
+_LOSSY_PATH_OPS = ("basename", "split", "rsplit", "rpartition", "partition", "splitext", "stem", "name", "relpath", "lstrip", "strip")
+
+
+def headerguard(repo):
+    """R-HEADERGUARD (C07): two modules with different paths get different include guards only if the guard is
+    computed from the whole path.  In the guard generator the path parameter may be suffixed, upper-cased and have
+    punctuation replaced, but must not go through an operation that drops directory components (basename, split,
+    slicing, ...): otherwise `v1/types.emb` and `v2/types.emb` share a guard and the second header is skipped by the
+    preprocessor of any translation unit that includes both."""
+    res = RuleResult("R-HEADERGUARD")
+    m = repo.mod(HG)
+    f = None
+    for g in m.top_funcs():
+        src = m.seg(g.node)
+        if "guard" in g.name.lower() and g.node.args.args:
+            f = g
+    if f is None:
+        raise AnalysisError("header_generator: the include-guard generator was not found")
+    param = f.node.args.args[0].arg
+    tainted = {param}
+    order = sorted((n for n in walk_no_nested_funcs(f.node) if isinstance(n, ast.Assign)), key=lambda n: n.lineno)
+    for _ in range(3):
+        for n in order:
+            if any(isinstance(x, ast.Name) and x.id in tainted for x in ast.walk(n.value)):
+                tainted |= {t.id for t in n.targets if isinstance(t, ast.Name)}
+    res.instances += 1
+    bad = []
+    for n in walk_no_nested_funcs(f.node):
+        uses = lambda node: any(isinstance(x, ast.Name) and x.id in tainted for x in ast.walk(node))
+        if isinstance(n, ast.Call):
+            nm = (call_name(n) or "").split(".")[-1]
+            if nm in _LOSSY_PATH_OPS and (any(uses(a) for a in n.args) or (isinstance(n.func, ast.Attribute) and uses(n.func.value))):
+                bad.append((n.lineno, ast.unparse(n)))
+        if isinstance(n, ast.Subscript) and uses(n.value) and not isinstance(n.value, ast.Call):
+            bad.append((n.lineno, ast.unparse(n)))
+        if isinstance(n, ast.Attribute) and n.attr in ("name", "stem") and uses(n.value):
+            bad.append((n.lineno, ast.unparse(n)))
+    rets = [n for n in walk_no_nested_funcs(f.node) if isinstance(n, ast.Return) and n.value is not None]
+    if not rets or not any(any(isinstance(x, ast.Name) and x.id in tainted for x in ast.walk(r.value)) for r in rets):
+        res.add(f"{HG}|{f.name}|independent", f"{f.name} returns a guard that does not depend on `{param}`", HG, f.line, f.name)
+    for line, src in bad[:1]:
+        res.add(f"{HG}|{f.name}|lossy", f"{f.name} derives the include guard through `{src}`, which drops part of the module path: "
+                "modules in different directories with the same file name get the same guard, and a translation unit including "
+                "both headers loses the second one", HG, line, f.name)
+    res.samples = [f"{f.name}: guard computed from the whole `{param}`"]
+    res.analysed = [HG]
+    return res
